@@ -38,9 +38,25 @@ CLAIM = {
     'note': 'np.fft.fft/ifft are replaced by their defining DFT sums and np.linalg.norm/inv by parameters with a '
             'contract (all three checked numerically per run); binary64 rounding (exp of large arguments, FFT) is '
             'outside the theorems: sequence values are compared with tolerance 1e-12 + 16*eps*|argument|, estimator '
-            'outputs with 1e-9 relative. Root index 0 (all-ones sequence, accepted by the code) is outside the '
-            'CAZAC clause (theorem zc_root_zero_not_cazac); negative cyclic shifts and the q parameter of '
-            'calcBaseZC are not modelled (not reachable through RootSequence / the 0..D-1 shifts of the property).',
+            'outputs with 1e-9 RELATIVE to the magnitude of the result (no absolute floor). Root index 0 (all-ones '
+            'sequence, accepted by the code) is outside the CAZAC clause (theorem zc_root_zero_not_cazac); negative '
+            'cyclic shifts and the q parameter of calcBaseZC are not modelled. Robustness classes: R3/R4/R7 for '
+            'the shared RootSequence object are theorems on the cell state machine (cell_root_unchanged, '
+            'cell_users_fresh, cell_rejected_noop, cell_statuses: any history of user constructions leaves the root '
+            'and earlier users unchanged, equals fresh constructions, rejected constructions are no-ops) tied by '
+            'the cell-history correspondence; R6 by theorem estimate_homogeneous plus the exactness theorems being '
+            'for all tap values, R5 by the theorems quantifying over all K, m >= 1, lengths >= 1, shifts < D '
+            '(boundary values are instances) — all additionally exercised by correspondence and oracles; R1 '
+            '(element types: numpy scalar ints of every width for u/Nzc/n_cs/K/size_multiplier, np.bool_ normalize, '
+            'cover-code dtypes, int/float32/complex64 observation and pilot arrays) and R2 (Fortran / strided / '
+            'reversed / offset / read-only / stride-0 views, (1,N), zero antennas, 0-d) have no model-level '
+            'statement (the model is a function of the logical value only) and are covered by correspondence '
+            '(model on the logical value vs code on the variant) and oracles only, as are R3/R4/R7 for estimator '
+            'objects (inputs never modified, results independent and stable, rejected calls leave the object '
+            'unchanged, every call equals a fresh estimator on the contiguous complex128 twin). An explicit type '
+            'guard of the library is kept as is: RootSequence asserts isinstance(size, int), so a numpy integer '
+            'size is rejected with AssertionError; DmrsUeSequence sets cover_code.flags.writeable = False on the '
+            'caller\'s array (values unchanged).',
 }
 
 EPS = 2.0 ** -52
@@ -146,31 +162,61 @@ def opt(v):
 
 
 # ------------------------------------------------------------------ implementation adapters
-def impl_root(u, size, nzc):
+INT_TYPES = ['int8', 'uint8', 'int16', 'uint16', 'int32', 'int64']
+
+
+def tint(v, ty):
+    """the integer value v as a Python int (ty None/'int') or as a numpy scalar of the named type"""
+    if v is None or ty in (None, 'int'):
+        return v
+    info = np.iinfo(getattr(np, ty))
+    if not (info.min <= v <= info.max):
+        return v
+    return getattr(np, ty)(v)
+
+
+def tbool(v, ty):
+    if ty == 'np.bool_':
+        return np.bool_(bool(v))
+    return bool(v)
+
+
+def impl_root(u, size, nzc, types=None):
+    """types: optional {'u': <int type name>, 'nzc': ...} (R1: same values, other element types)"""
     rs = _impl()[0]
-    kw = {'root_index': u}
+    types = types or {}
+    kw = {'root_index': tint(u, types.get('u'))}
     if size is not None:
         kw['size'] = size
     if nzc is not None:
-        kw['Nzc'] = nzc
+        kw['Nzc'] = tint(nzc, types.get('nzc'))
     return rs.RootSequence(**kw)
 
 
-def impl_ue(spec):
-    """spec: u size nzc ncs D cover norm  ->  Srs/DmrsUeSequence"""
+def make_ue(root, spec):
+    """Srs/DmrsUeSequence from an EXISTING root object (spec: ncs D cover norm [types])"""
     _, _, srs, dmrs, _, _ = _impl()
-    root = impl_root(spec['u'], spec['size'], spec['nzc'])
+    types = spec.get('types') or {}
+    ncs = tint(spec['ncs'], types.get('ncs'))
+    norm = tbool(spec['norm'], types.get('norm'))
     if spec['D'] == 8:
         assert spec['cover'] is None
-        return srs.SrsUeSequence(root, spec['ncs'], normalize=bool(spec['norm']))
-    cover = None if spec['cover'] is None else np.array(spec['cover'])
-    return dmrs.DmrsUeSequence(root, spec['ncs'], cover_code=cover, normalize=bool(spec['norm']))
+        return srs.SrsUeSequence(root, ncs, normalize=norm)
+    cover = None
+    if spec['cover'] is not None:
+        cover = np.array(spec['cover'], dtype=getattr(np, types.get('cover') or 'int64'))
+    return dmrs.DmrsUeSequence(root, ncs, cover_code=cover, normalize=norm)
+
+
+def impl_ue(spec):
+    """spec: u size nzc ncs D cover norm [types]  ->  Srs/DmrsUeSequence on a fresh root"""
+    return make_ue(impl_root(spec['u'], spec['size'], spec['nzc'], spec.get('types')), spec)
 
 
 def ue_tokens(spec):
     return 'u=%d size=%s nzc=%s ncs=%d D=%d cover=%s norm=%d' % (
         spec['u'], opt(spec['size']), opt(spec['nzc']), spec['ncs'], spec['D'],
-        'none' if spec['cover'] is None else ','.join(str(c) for c in spec['cover']), spec['norm'])
+        'none' if spec['cover'] is None else '_'.join(str(c) for c in spec['cover']), spec['norm'])
 
 
 # ------------------------------------------------------------------ oracles (REAL code, first principles)
@@ -281,17 +327,88 @@ def gtaps(t):
     return np.array([[complex(a, b) for a, b in row] for row in t], dtype=complex)
 
 
+LAYOUTS = ['C', 'F', 'strided', 'reversed', 'offset', 'readonly']
+
+
+def relayout(a, layout):
+    """the same values in another memory layout (R2)"""
+    a = np.asarray(a)
+    if layout in (None, 'C') or a.ndim == 0:
+        return np.ascontiguousarray(a)
+    if layout == 'F':
+        return np.asfortranarray(a) if a.ndim > 1 else relayout(a, 'strided')
+    if layout == 'strided':
+        big = np.zeros(a.shape[:-1] + (2 * a.shape[-1] + 1,), dtype=a.dtype)
+        big[..., 1::2] = a
+        return big[..., 1::2]
+    if layout == 'reversed':
+        return np.ascontiguousarray(a[..., ::-1])[..., ::-1]
+    if layout == 'offset':
+        big = np.zeros((a.size + 3,), dtype=a.dtype)
+        big[3:] = a.ravel()
+        return big[3:].reshape(a.shape)
+    if layout == 'broadcast':
+        # stride-0 view: every row (element for 1-D) is the first one — the VALUES change, callers take the twin
+        # from the returned array
+        return np.broadcast_to(a[0], a.shape)
+    if layout == 'readonly':
+        b = np.array(a)
+        b.flags.writeable = False
+        return b
+    raise ValueError(layout)
+
+
+def variant_tag(v):
+    """canonical name of the non-default knobs of a variant dict: part of the failure class"""
+    if not v:
+        return ''
+    items = []
+    for k in sorted(v):
+        val = v[k]
+        if val in (None, 'C', 'int', 'complex128', 'bool', 1.0, False):
+            continue
+        if isinstance(val, dict):
+            sub = variant_tag(val)
+            if sub:
+                items.append('%s(%s)' % (k, sub))
+            continue
+        if isinstance(val, float):
+            val = '%.0e' % val
+        items.append('%s=%s' % (k, val))
+    return ','.join(items)
+
+
+class Snap:
+    """R3: deep snapshot of the arrays handed to the code; `changed()` names the first one that differs"""
+
+    def __init__(self, **arrays):
+        self.live = arrays
+        self.copy = {k: (np.array(v, copy=True), v.shape, v.strides, v.dtype) for k, v in arrays.items()}
+
+    def changed(self):
+        for k, v in self.live.items():
+            c, shp, strd, dt = self.copy[k]
+            if v.shape != shp or v.strides != strd or v.dtype != dt:
+                return k + ' (shape/strides/dtype)'
+            if not np.array_equal(v, c, equal_nan=True):
+                return k
+        return None
+
+
 def estimator_case_run(case):
-    """build the noise-free observation from first principles, run the real estimator;
-    returns (estimate, true response, variant)"""
+    """build the noise-free observation from first principles, run the real estimator.
+    case['variant'] (all optional): ytype complex128|complex64, layout, ktype, mtype, scale.
+    returns dict(out, truth, variant, spec, mag, changed, aliased)"""
     _, _, _, _, ce, _ = _impl()
     spec = dict(case['ue'])
+    var = case.get('variant') or {}
     m = int(case['m'])
     k = int(case['K'])
+    scale = float(var.get('scale', 1.0))
     ue = impl_ue(spec)
     size = ue.size
     nsc = m * size
-    h = gtaps(case['taps'])                       # Nr x L
+    h = gtaps(case['taps']) * scale                # Nr x L
     nr = h.shape[0]
     users = [(ue, h)]
     for it in case.get('interferers', []):
@@ -299,12 +416,15 @@ def estimator_case_run(case):
         s2['ncs'] = it['ncs']
         if 'cover' in it:
             s2['cover'] = it['cover']
-        users.append((impl_ue(s2), gtaps(it['taps'])))
+        users.append((impl_ue(s2), gtaps(it['taps']) * scale * float(it.get('scale', 1.0))))
     comb = np.arange(0, nsc, m)
     occ = spec['cover'] is not None
     y = 0
+    mag = 0.0
     for seq, taps in users:
-        hf = true_response(taps, nsc)[:, comb]       # Nr x size
+        hfull = true_response(taps, nsc)
+        mag = max(mag, float(np.max(np.abs(hfull))) if hfull.size else 0.0)
+        hf = hfull[:, comb]                          # Nr x size
         x = np.asarray(seq.seq_array())
         if occ:
             y = y + hf[:, None, :] * x[None, :, :]   # Nr x Nc x size
@@ -313,55 +433,102 @@ def estimator_case_run(case):
     single = (nr == 1 and not case.get('force2d', False))
     if single:
         y = y[0]
+    extra = case.get('extra', True)
+    if occ and not extra:
+        y = y.reshape(-1) if single else y.reshape(nr, -1)
+    y = relayout(np.asarray(y).astype(var.get('ytype') or 'complex128'), var.get('layout'))
+    kk = tint(k, var.get('ktype'))
+    snap = Snap(Y=y, ref=ue.seq_array())
     if occ:
         est = ce.CazacBasedWithOCCChannelEstimator(ue)
-        if case.get('extra', True):
-            out = est.estimate_channel_freq_domain(y, k, extra_dimension=True)
-        else:
-            flat = y.reshape(-1) if single else y.reshape(nr, -1)
-            out = est.estimate_channel_freq_domain(np.ascontiguousarray(flat), k, extra_dimension=False)
+        out = est.estimate_channel_freq_domain(y, kk, extra_dimension=bool(extra))
     else:
-        est = ce.CazacBasedChannelEstimator(ue, size_multiplier=m)
-        out = est.estimate_channel_freq_domain(y, k)
+        est = ce.CazacBasedChannelEstimator(ue, size_multiplier=tint(m, var.get('mtype')))
+        out = est.estimate_channel_freq_domain(y, kk)
+    out = np.asarray(out)
     truth = true_response(h, nsc)
     if single:
         truth = truth[0]
     variant = ('occ' if occ else ('comb' if m > 1 else 'plain')) + (':multi-user' if len(users) > 1 else '')
-    return np.asarray(out), truth, variant, spec
+    tag = variant_tag({'v': var, 'types': spec.get('types')})
+    if tag:
+        variant += '|' + tag
+    return {'out': out, 'truth': truth, 'variant': variant, 'spec': spec, 'mag': mag,
+            'changed': snap.changed(), 'aliased': bool(np.shares_memory(out, y)), 'nusers': len(users),
+            'c64': var.get('ytype') == 'complex64'}
 
 
 def o_cazac_estimator(case):
-    out, truth, variant, spec = estimator_case_run(case)
+    r = estimator_case_run(case)
+    out, truth, variant = r['out'], r['truth'], r['variant']
+    if r['changed']:
+        return 'input-modified:' + variant, 'the call changed its input %s' % r['changed']
+    if r['aliased']:
+        return 'output-aliases-input:' + variant, 'the estimate shares memory with the observation'
     if out.shape != truth.shape:
         return 'estimate-wrong-shape:' + variant, 'shape %s, expected %s' % (out.shape, truth.shape)
-    scale = max(1.0, float(np.max(np.abs(truth))))
-    tol = (1e-9 + 64 * seq_tol(spec['u'], out.shape[-1])) * scale * max(1, len(case.get('interferers', [])) + 1)
-    d = float(np.max(np.abs(out - truth)))
+    if out.dtype != np.complex128:
+        return 'estimate-wrong-dtype:' + variant, 'dtype %s' % out.dtype
+    # relative to the scale of the channels involved (R6): no absolute floor
+    rel = 1e-9 + 64 * seq_tol(r['spec']['u'], out.shape[-1]) + (3e-6 if r['c64'] else 0.0)
+    tol = rel * r['mag'] * r['nusers']
+    d = float(np.max(np.abs(out - truth))) if out.size else 0.0
     if not d <= tol:
-        return 'estimate-inexact:' + variant, 'max |H_est - H| = %.3e (tol %.1e)' % (d, tol)
+        return 'estimate-inexact:' + variant, 'max |H_est - H| = %.3e (tol %.1e, channel magnitude %.1e)' % (
+            d, tol, r['mag'])
     return None
+
+
+def ls_arrays(case):
+    """H, S lists (complex128) of an LS case; variant: dtype, layout, sh (scale of H), ss (scale of S)"""
+    var = case.get('variant') or {}
+    sh, ss = float(var.get('sh', 1.0)), float(var.get('ss', 1.0))
+    hs = [np.array([[complex(a, b) for a, b in row] for row in h]).reshape(len(h), -1) * sh for h in case['H']]
+    ss_ = [np.array([[complex(a, b) for a, b in row] for row in s_]).reshape(len(s_), -1) * ss for s_ in case['S']]
+    return hs, ss_, var
+
+
+def ls_cast(a, var):
+    dt = var.get('dtype') or 'complex128'
+    a = np.asarray(a)
+    if np.dtype(dt).kind != 'c':
+        a = a.real
+    return relayout(a.astype(dt), var.get('layout'))
 
 
 def o_ls(case):
     """Y = H S (Gaussian integers), S of full row rank  =>  LS estimate = H"""
     est = _impl()[5]
-    hs = [np.array([[complex(a, b) for a, b in row] for row in h]) for h in case['H']]
-    ss = [np.array([[complex(a, b) for a, b in row] for row in s]) for s in case['S']]
+    hs, ss, var = ls_arrays(case)
+    if np.dtype(var.get('dtype') or 'complex128').kind != 'c':
+        hs = [h.real + 0j for h in hs]
+        ss = [x.real + 0j for x in ss]
     shape = case.get('shape', '2d')
+    tag = variant_tag(var)
+    cls = shape + ('|' + tag if tag else '')
     if shape == '2d':
-        out = est.compute_ls_estimation(hs[0] @ ss[0], ss[0])
+        y, sarg = ls_cast(hs[0] @ ss[0], var), ls_cast(ss[0], var)
         truth = hs[0]
     elif shape == '3d-shared':
-        y = np.array([h @ ss[0] for h in hs])
-        out = est.compute_ls_estimation(y, ss[0])
+        y, sarg = ls_cast(np.array([h @ ss[0] for h in hs]), var), ls_cast(ss[0], var)
         truth = np.array(hs)
     else:
-        y = np.array([h @ s for h, s in zip(hs, ss)])
-        out = est.compute_ls_estimation(y, np.array(ss))
+        y, sarg = ls_cast(np.array([h @ x for h, x in zip(hs, ss)]), var), ls_cast(np.array(ss), var)
         truth = np.array(hs)
+    snap = Snap(Y=y, S=sarg)
+    out = np.asarray(est.compute_ls_estimation(y, sarg))
+    if snap.changed():
+        return 'input-modified:' + cls, 'compute_ls_estimation changed its input %s' % snap.changed()
+    if np.shares_memory(out, y) or np.shares_memory(out, sarg):
+        return 'output-aliases-input:' + cls, 'the estimate shares memory with an input'
+    if out.dtype.kind in 'iub':
+        return 'ls-integer-result:' + cls, 'result dtype %s truncates' % out.dtype
+    mag = float(np.max(np.abs(truth))) if truth.size else 0.0
+    narrow = np.dtype(var.get('dtype') or 'complex128').itemsize <= (8 if np.dtype(
+        var.get('dtype') or 'complex128').kind == 'c' else 4) and np.dtype(var.get('dtype') or 'complex128').kind in 'cf'
     d = max_diff(out, truth)
-    if not d <= 1e-8 * max(1.0, float(np.max(np.abs(truth)))):
-        return 'ls-inexact:' + shape, 'max |H_est - H| = %s' % d
+    if not d <= (2e-2 if narrow else 1e-8) * mag:
+        return 'ls-inexact:' + cls, 'max |H_est - H| = %s (|H| <= %.3e)' % (d, mag)
     return None
 
 
@@ -375,12 +542,22 @@ ORACLES = {
 }
 
 
+def _robust():
+    from harness.props import c18_robust
+    for k_, v_ in c18_robust.ORACLES.items():
+        ORACLES.setdefault(k_, v_)
+    return c18_robust
+
+
 def run_oracle(ctx, call, case, key=None, nontrivial=True):
+    _robust()
     ctx.count((call, key if key is not None else repr(case)), nontrivial)
     try:
         r = ORACLES[call](case)
     except Exception as e:  # an exception where the property promises a value
-        r = ('exception:' + type(e).__name__, repr(e)[:300])
+        tag = variant_tag({'v': case.get('variant'), 'types': (case.get('ue') or {}).get('types')}) \
+            if isinstance(case, dict) else ''
+        r = ('exception:' + type(e).__name__ + ('|' + tag if tag else ''), repr(e)[:300])
     if r is not None:
         ctx.fail(call, r[0], case, r[1])
         ctx.branch('oracle-fail:' + call)
@@ -390,6 +567,7 @@ def run_oracle(ctx, call, case, key=None, nontrivial=True):
 
 
 def replay(ctx, rep):
+    _robust()
     try:
         r = ORACLES[rep['call']](rep['case'])
     except Exception:
@@ -671,7 +849,8 @@ def corr_estimators(ctx, drv, n, nbig):
         res = np.asarray(res)
         mv = parse_clist(mo) if res.ndim == 1 else parse_crows(mo)
         # contract of the external kernels on this case: np.fft == defining DFT sums (model computes the sums)
-        scale = max(1.0, float(np.max(np.abs(res))))
+        # relative to the magnitude of the result (R6): no absolute floor
+        scale = max(float(np.max(np.abs(res))) if res.size else 0.0, float(np.max(np.abs(mv))) if mv.size else 0.0)
         tol = (1e-9 + 64 * seq_tol(spec['u'], res.shape[-1])) * scale
         corr_close(ctx, name, case, res, mv, tol)
         ctx.branch('est:%s:%dd' % (kind, y.ndim))
@@ -730,7 +909,7 @@ def corr_ls(ctx, drv, n):
         gi = np.linalg.inv(g)
         if max_diff(g @ gi, np.eye(g.shape[0])) > 1e-9:
             ctx.tie_broken('tie', 'contract:np.linalg.inv', 'G inv(G) != I', case)
-        corr_close(ctx, 'compute_ls_estimation', case, res, mv, 1e-9 * max(1.0, float(np.max(np.abs(mv)))))
+        corr_close(ctx, 'compute_ls_estimation', case, res, mv, 1e-9 * float(np.max(np.abs(mv))))
         ctx.branch('ls:' + shape)
 
 
@@ -838,7 +1017,7 @@ def check(ctx):
                              'ue:cover', 'ue:normalized', 'est:est:1d', 'est:est:2d', 'est:occ:2d', 'est:occ:3d',
                              'est:normalized', 'ls:2d', 'ls:3d-shared', 'ls:3d-own', 'contract:np.fft', 'contract:np.linalg.norm',
                              'oracle-est:occ', 'oracle-est:comb', 'oracle-est:plain', 'oracle-est:multi-user',
-                             'oracle-est:multi-antenna', 'oracle-est:normalized']
+                             'oracle-est:multi-antenna', 'oracle-est:normalized'] + _robust().REQUIRED
     try:
         drv = core.Driver(DRIVER)
         corr_lookup(ctx, drv, 1300)
@@ -847,6 +1026,7 @@ def check(ctx):
         corr_ue(ctx, drv, 80 if quick else 1500)
         corr_estimators(ctx, drv, 70 if quick else 900, 1 if quick else 12)
         corr_ls(ctx, drv, 60 if quick else 1500)
+        _robust().correspondence(ctx, drv, quick)
     except core.Infra as e:
         if not ctx.broken:
             raise
@@ -855,6 +1035,7 @@ def check(ctx):
     fft_contract(ctx, 20 if quick else 200)
     corpus_runs(ctx)
     oracle_runs(ctx, quick)
+    _robust().oracle_runs(ctx, quick)
     ctx.sample({'call': 'prime_lookup', 'size': 1200, 'model': 'last of smallPrimeList.filter (<= size)'})
     ctx.sample({'call': 'RootSequence.seq_array', 'u': 25, 'size': 150,
                 'check': '|a|=1, R[tau]=0 for tau != 0, |DFT|^2 = N, seq[i] = seq[i mod Nzc]'})
@@ -885,3 +1066,4 @@ def search(ctx):
         run_oracle(ctx, 'estimate_channel_freq_domain', gen_estimator_case(rng, big=(i % 50 == 49)))
     for _ in range(600):
         run_oracle(ctx, 'compute_ls_estimation', gen_ls_case(rng))
+    _robust().search(ctx)
